@@ -338,7 +338,8 @@ def run(rep: Report, prog: Program, tier: str) -> None:
     n7 = 0
     _sd_allowed = {"klass": [attr(ST7, "last_class")], "exc": [attr(ST7, "last_exc")], "cause": [attr(ST7, "last_cause")]}
     # (the decision step: `_handle_sleep_decision`, or - where its body lives in the two sleep steps - those)
-    _sd_sites = [("redress.policy.retry_helpers:_handle_sleep_decision", _sd_allowed)] if "redress.policy.retry_helpers:_handle_sleep_decision" in prog.funcs else [("redress.policy.retry_helpers:_sync_sleep_action", _sd_allowed), ("redress.policy.retry_helpers:_async_sleep_action", _sd_allowed)]
+    _sd_exists = any(f0.name == "_handle_sleep_decision" and f0.cls is None for f0 in prog.funcs.values())  # (wherever it lives)
+    _sd_sites = [("redress.policy.retry_helpers:_handle_sleep_decision", _sd_allowed)] if _sd_exists else [("redress.policy.retry_helpers:_sync_sleep_action", _sd_allowed), ("redress.policy.retry_helpers:_async_sleep_action", _sd_allowed)]
     for q7, allowed in (
         *_sd_sites,
         ("redress.policy.retry_helpers:_finalize_attempt", {"klass": [attr(ST7, "last_class"), attr(("param", "classification"), "klass")], "exc": [("param", "exception"), attr(ST7, "last_exc")], "cause": [("param", "cause"), attr(ST7, "last_cause")]}),
